@@ -9,7 +9,7 @@ import threading
 
 from simkit import mon, rng as rngm, spec, universe as U
 
-KINDS = ['preempt', 'user_abort', 'reenter', 'scramble', 'gc', 'name_reuse', 'ctor_fail', 'compile']
+KINDS = ['preempt', 'user_abort', 'reenter', 'scramble', 'gc', 'name_reuse', 'ctor_fail', 'compile', 'postprocess']
 
 
 # ------------------------------------------------------------------------------- generation
@@ -44,8 +44,9 @@ class ModInfo:
                 gaps += spec.IGNORE_SAMPLES.get(it['expr'][1], [])
         self.gaps = gaps
         first = [it for it in spec_['items'] if it['k'] in ('rule', 'class')]
-        if 'start' in self.rules:
-            self.start = self.rules['start']
+        own_start = next((it for it in first if spec.is_start(it['name']) and not it.get('ignore')), None)
+        if own_start is not None:
+            self.start = own_start
         elif parent is not None:
             self.start = parent.start
         else:
@@ -434,6 +435,9 @@ class Planner:
                     continue
                 if 'scramble' in kinds and x < 0.2 and ops and ops[-1]['op'] == 'parse':
                     ops.append({'op': 'scramble'})
+                    continue
+                if 'postprocess' in kinds and 0.2 <= x < 0.27 and ops and ops[-1]['op'] == 'parse':
+                    ops.append({'op': 'postprocess'})
                     continue
                 if 'gc' in kinds and x < 0.25:
                     ops.append({'op': 'gc'})
